@@ -43,8 +43,20 @@ type Slice struct {
 }
 
 type Iface struct {
-	T types.Type // nil = nil interface
-	V Value
+	T     types.Type // nil = nil interface
+	V     Value
+	NilIf *Term // when non-nil: the interface value is nil under this condition, (T,V) otherwise
+}
+
+// isNilTerm: condition under which the interface value is nil
+func (i Iface) isNilTerm() *Term {
+	if i.T == nil {
+		return True
+	}
+	if i.NilIf != nil {
+		return i.NilIf
+	}
+	return False
 }
 
 type Func struct {
@@ -286,8 +298,14 @@ func mergeVal(c *Term, a, b Value) (Value, bool) {
 		if !ok {
 			return nil, false
 		}
-		if x.T == nil || y.T == nil {
-			return a, x.T == nil && y.T == nil
+		if x.T == nil && y.T == nil {
+			return a, true
+		}
+		if x.T == nil {
+			return Iface{T: y.T, V: y.V, NilIf: Ite(c, True, y.isNilTerm())}, true
+		}
+		if y.T == nil {
+			return Iface{T: x.T, V: x.V, NilIf: Ite(c, x.isNilTerm(), True)}, true
 		}
 		if !types.Identical(x.T, y.T) {
 			return nil, false
@@ -296,7 +314,11 @@ func mergeVal(c *Term, a, b Value) (Value, bool) {
 		if !ok {
 			return nil, false
 		}
-		return Iface{x.T, m}, true
+		r := Iface{T: x.T, V: m}
+		if x.NilIf != nil || y.NilIf != nil {
+			r.NilIf = Ite(c, x.isNilTerm(), y.isNilTerm())
+		}
+		return r, true
 	case *Func:
 		y, ok := b.(*Func)
 		if !ok {
@@ -424,7 +446,7 @@ func sameValue(a, b Value) bool {
 		if x.T == nil || y.T == nil {
 			return x.T == nil && y.T == nil
 		}
-		return types.Identical(x.T, y.T) && sameValue(x.V, y.V)
+		return types.Identical(x.T, y.T) && sameValue(x.V, y.V) && x.NilIf == y.NilIf
 	case *Func:
 		y, ok := b.(*Func)
 		if !ok {
@@ -480,12 +502,16 @@ func (e *Exec) eqVal(a, b Value) *Term {
 			fail("eq: iface vs %T", b)
 		}
 		if x.T == nil || y.T == nil {
-			return BoolConst(x.T == nil && y.T == nil)
+			return And(x.isNilTerm(), y.isNilTerm())
 		}
 		if !types.Identical(x.T, y.T) {
-			return False
+			return And(x.isNilTerm(), y.isNilTerm())
 		}
-		return e.eqVal(x.V, y.V)
+		if x.NilIf == nil && y.NilIf == nil {
+			return e.eqVal(x.V, y.V)
+		}
+		xn, yn := x.isNilTerm(), y.isNilTerm()
+		return Or(And(xn, yn), And(Not(xn), Not(yn), e.eqVal(x.V, y.V)))
 	case *Func:
 		y, _ := b.(*Func)
 		if x == nil || y == nil {
